@@ -820,7 +820,9 @@ fn main() {
             let len: usize = args[4].parse().unwrap();
             let drops: usize = args[5].parse().unwrap();
             let faults = args[6] == "1";
-            let mut cases_out = args.get(7).map(|p| std::fs::File::create(p).unwrap());
+            let mut cases_out = args.get(7).filter(|p| p.as_str() != "-").map(|p| std::fs::File::create(p).unwrap());
+            // more rpc() calls than the model has room for: long sessions, judged by the contract alone
+            let nmax: u64 = args.get(8).and_then(|s| s.parse().ok()).unwrap_or(6);
             let mut rng = StdRng::seed_from_u64(seed);
             for k in 0..count {
                 let case = format!("r{seed}-{k}");
@@ -833,9 +835,12 @@ fn main() {
                     lines.push(v.to_string());
                 };
                 emit(json!({"ev": "reset"}));
+                if nmax > 8 {
+                    emit(json!({"ev": "nomodel"}));
+                }
                 let r = std::panic::catch_unwind(std::panic::AssertUnwindSafe(|| {
                     let mut ex = Exec::new();
-                    let cmds = random_case(&mut rng, len, drops, faults, 6, &mut ex, &mut emit);
+                    let cmds = random_case(&mut rng, len, drops, faults, nmax, &mut ex, &mut emit);
                     let mis = ex.misguessed;
                     in_runtime(|| drop(ex));
                     (cmds, mis)
